@@ -380,6 +380,26 @@ def userord_schema(kind):
                                 copy.deepcopy(l)])
 
 
+def findings_schema():
+    """Hand schema for the witnesses of the diff findings (corpus/diff/findings.json)."""
+    S = SNode
+    st = lambda **k: dict(config=False, **k)
+    return Schema("fnd", [
+        S("container", "c", kids=[
+            S("leaf", "x", ty=Ty("string"), dflt=b"d"),
+            S("leaflist", "dl", ty=Ty("string"), userord=True, dflts=[b"a", b"b"]),
+            S("leaflist", "dl3", ty=Ty("string"), userord=True, dflts=[b"c", b"a", b"b"]),
+            S("leaflist", "sl", ty=Ty("int8"))]),
+        S("container", "st", config=False, kids=[
+            S("list", "kl", keys=[], userord=True, config=False, kids=[
+                S("leaf", "f3", ty=Ty("uint8"), dflt=b"100", config=False), S("leaf", "f4", ty=Ty("string"), config=False)]),
+            S("leaflist", "sb", ty=Ty("boolean"), userord=True, config=False),
+            S("list", "sk", keys=["k"], userord=True, config=False, kids=[
+                S("leaf", "k", ty=Ty("string"), iskey=True, config=False), S("leaf", "v", ty=Ty("string"), config=False)])]),
+        S("list", "ul", keys=["k"], userord=True, kids=[S("leaf", "k", ty=Ty("uint8"), iskey=True), S("leaf", "v", ty=Ty("string"))]),
+    ])
+
+
 # ----------------------------------------------------------------------------------------------
 # data trees
 # ----------------------------------------------------------------------------------------------
